@@ -207,6 +207,27 @@ func (w *World) implPair(ifi *FuncInfo, ifc *FuncContract, cfi *FuncInfo, cfc *F
 	for _, c := range cfc.Ensures {
 		cens = append(cens, w.trSpec(c.E, cenv).T)
 	}
+	if cfc.PureAs != "" && len(rn) == 1 {
+		// `pureas F`: the implementer's result IS the mathematical function F of receiver and arguments
+		if sf := w.findSpec(cpkg, cfc.PureAs); sf != nil && sf.Body == nil {
+			ts := []*Term{selfC.T}
+			for i := 0; i < cfi.Sig.Params().Len(); i++ {
+				if v, ok := cnames[cpns[i]]; ok {
+					ts = append(ts, v.T)
+				}
+			}
+			if len(ts) == len(sf.Params) {
+				for i := range ts {
+					ps, _ := w.resolveSpecType(sf.Pkg, sf.Params[i].Type)
+					if ts[i].S.Kind == KInt && ps.Kind == KReal {
+						ts[i] = toReal(ts[i])
+					}
+				}
+				rs, _ := w.resolveSpecType(sf.Pkg, sf.Ret)
+				cens = append(cens, tEq(cnames[crnames[0]].T, mk(specFuncSMTName(sf), rs, ts...)))
+			}
+		}
+	}
 	mkO := func(name string, g, goal *Term, src string) {
 		obls = append(obls, &Obligation{Name: oname + "#impl." + name, Kind: "impl", Func: cfi.Key, Guard: g, Goal: goal, NDecl: len(ex.decls), Unfold: 2, Props: ifc.Props, Src: src, ex: ex})
 	}
